@@ -11,7 +11,7 @@ for I in 1 2 3; do
   rm -rf $WT; git -C /repo worktree prune
   git -C /repo worktree add -q --detach $WT HEAD || exit 2
   R=0
-  ( cd $WT && git apply $SRC/patch$I.diff ) || { echo "patch does not apply to current HEAD"; R=3; }
+  ( cd $WT && { git apply $SRC/patch$I.diff || git apply -3 $SRC/patch$I.diff; } ) || { echo "patch does not apply to current HEAD"; R=3; }
   TR=-1; DW=-1; DO=-1
   if [ $R = 0 ]; then
     ( cd $WT && PYTHONPATH=$WT /venv/bin/python -m pytest -q -p no:cacheprovider --timeout=900 --deselect tests/midifiles/test_tracks.py::test_merge_large_midifile >/tmp/confirmh.pytest 2>&1 ); TR=$?
